@@ -163,7 +163,7 @@ func CheckEpochs(c *core.Ctx, d1 *lref.DAG, desc string, sealFrame int, kind str
 				violate("epoch", "epoch/seal-missed", replay(), "the reference decides frame %d inside this event set but the instance did not seal [%v]", sealFrame, replay())
 				return false
 			}
-			if cat, msg := CheckBlocks(d1, node, byID1); cat != "" {
+			if cat, msg := CheckBlocks(d1, node, byID1, rep); cat != "" {
 				violate(strings.SplitN(cat, "/", 2)[0], cat, replay(), "%s [%v]", msg, replay())
 				return false
 			}
@@ -205,7 +205,7 @@ func CheckEpochs(c *core.Ctx, d1 *lref.DAG, desc string, sealFrame int, kind str
 			return false
 		}
 		// blocks of the sealed epoch against the graph monitors (the node's blocks are all epoch 1)
-		if cat, m := CheckBlocks(d1, node, byID1); cat != "" {
+		if cat, m := CheckBlocks(d1, node, byID1, rep); cat != "" {
 			violate(strings.SplitN(cat, "/", 2)[0], cat, replay(), "%s [%v]", m, replay())
 			return false
 		}
@@ -342,7 +342,7 @@ func CheckEpochs(c *core.Ctx, d1 *lref.DAG, desc string, sealFrame int, kind str
 			// monitors on the new epoch's blocks
 			keep := node.Blocks
 			node.Blocks = append([]BlockObs{}, keep[nb:]...)
-			cat, m := CheckBlocks(d2, node, byID2)
+			cat, m := CheckBlocks(d2, node, byID2, rep)
 			var ids []hash.Event
 			for _, x := range maskList(nm) {
 				ids = append(ids, evs2[x].ID())
